@@ -75,6 +75,54 @@ Example C11_lru_refines_nonvacuous :
   /\ nth 2 (c11_lrus_run nat 3 ([], LruVoid nat) c11_ex_lru_ops) None = Some (LruVal _ 7, 2, Some (7, 6), [Some (0, 7); Some (1, 6); None]).
 Proof. split; [exact (c11_somes_tr (c11_lrus_run nat 3 ([], LruVoid nat) c11_ex_lru_ops) (eq_refl true)) | vm_compute; reflexivity]. Qed.
 
+(* ---- PRE-EXISTING STATE OF THE TARGET (dimension audit 2): lru::operator= as in the header (_data = other._data; rebuildIndex() =
+   _index.clear() + re-insert of every node).  For every precondition-respecting history of the source and EVERY state t of the
+   target whatsoever (any entries, any - even inconsistent - index, any node counter), the assigned-to cache shows size(), front(),
+   back() and find(k) for all observed keys exactly as the source's abstract map does: nothing of the target's earlier entries
+   survives.  (C11_lru_refines above additionally covers histories that CONTINUE on such a target: op LruAssignOnto.) *)
+Theorem C11_lru_assign_onto_any_target :
+  forall (V : Type) (nkeys : nat) (ops : list (c11_lru_op V)) (ws : c11_lrus_world V) (t : c11_lru V),
+    c11_spec_exec (c11_lrus_step V) ([], LruVoid V) ops = Some ws ->
+    exists w, c11_exec (c11_lru_step V true) (c11_lru_empty V, LruVoid V) ops = C11_ok w /\
+      c11_lru_observe V nkeys (c11_lru_assign V t (fst w), LruVoid V) = C11_ok (c11_lrus_observe V nkeys (fst ws, LruVoid V)).
+Proof. exact c11_lru_assign_onto_any_target_lemma. Qed.
+Print Assumptions C11_lru_assign_onto_any_target.
+
+(* the target really holds other entries (keys 1, 2, 0 with other values, another order, a stale index entry would answer find(2)):
+   after the assignment find(2) is end() and touch(2) throws; the history continues on the target *)
+Example C11_lru_assign_onto_nonvacuous :
+  (exists tr, c11_lrus_run nat 3 ([], LruVoid nat) c11_ex_lru_asg_ops = map Some tr /\ length tr = length (c11_lrus_run nat 3 ([], LruVoid nat) c11_ex_lru_asg_ops))
+  /\ nth 2 (c11_lru_run nat true 3 (c11_lru_empty nat, LruVoid nat) c11_ex_lru_asg_ops) C11_ub = C11_ok (LruVoid _, 2, Some (6, 5), [Some (0, 5); Some (1, 6); None])
+  /\ nth 3 (c11_lru_run nat true 3 (c11_lru_empty nat, LruVoid nat) c11_ex_lru_asg_ops) C11_ub = C11_ok (LruRangeError _, 2, Some (6, 5), [Some (0, 5); Some (1, 6); None])
+  /\ c11_lru_size nat (match c11_lru_fill nat true (c11_lru_empty nat) [(1, 60); (2, 70); (0, 50); (1, 61)] with C11_ok t => t | _ => c11_lru_empty nat end) = 3.
+Proof. split; [exact (c11_somes_tr (c11_lrus_run nat 3 ([], LruVoid nat) c11_ex_lru_asg_ops) (eq_refl true)) | vm_compute; repeat split; reflexivity]. Qed.
+
+(* ---- MAGNITUDE OF INTEGER ARGUMENTS (dimension audit 2).  BitSetVector: a shift of a block by ANY count >= its size clears it
+   (the driver's counts 2^31, 2^31+1, 2^32, 2^63, SIZE_MAX are run on the model as the shift by the block size, justified here);
+   reference::set(n, val) sets the bit iff val is nonzero, for every int.  ReservedVector: at(i) throws for every i >= size(). *)
+Theorem C11_bitset_shift_saturates :
+  forall (b : list bool) (k : nat), length b <= k ->
+    c11_bitset_shl b k = c11_bitset_shl b (length b) /\ c11_bitset_shr b k = c11_bitset_shr b (length b)
+    /\ c11_bitset_shl b k = repeat false (length b) /\ c11_bitset_shr b k = repeat false (length b).
+Proof. exact c11_bitset_shift_saturates_lemma. Qed.
+Print Assumptions C11_bitset_shift_saturates.
+
+Theorem C11_bitset_set_val_nonzero :
+  forall val : Z, (c11_bv_val_to_bool val = true <-> val <> 0%Z) /\ (c11_bv_val_to_bool val = false <-> val = 0%Z).
+Proof. exact c11_bv_val_to_bool_lemma. Qed.
+Print Assumptions C11_bitset_set_val_nonzero.
+
+Theorem C11_reserved_at_beyond :
+  forall (T : Type) (s : c11_rv T) (i : nat), rv_size s <= i -> c11_rv_at T s i = C11_ok None.
+Proof. exact c11_reserved_at_beyond_lemma. Qed.
+Print Assumptions C11_reserved_at_beyond.
+
+Example C11_magnitude_nonvacuous :
+  c11_bitset_shl [true; false; true] 1000 = [false; false; false] /\ c11_bitset_shr [true; true; true] 3 = [false; false; false]
+  /\ c11_bv_val_to_bool 2 = true /\ c11_bv_val_to_bool (-2147483648) = true /\ c11_bv_val_to_bool 256 = true /\ c11_bv_val_to_bool 0 = false
+  /\ c11_rv_at nat (C11_mk_rv nat [7; 8; 9] 2) 2 = C11_ok None /\ c11_rv_at nat (C11_mk_rv nat [7; 8; 9] 2) 1 = C11_ok (Some 8).
+Proof. vm_compute. repeat split; reflexivity. Qed.
+
 (* ---- ReservedVector<T,n> (std::array storage + size_): for every element type with any == and <, every capacity n and every
    history over two vectors of push_back / pop_back / resize / clear / operator[] assignment / fill / (count,value) and range
    construction / swap / assignment / at() that respects the documented preconditions (no push_back on a full vector, sizes
